@@ -165,16 +165,22 @@ func runC15(p *C15Plan) (*stats.Case, error) {
 		w := p.Subs + r
 		worker(w, func() {
 			for k := 0; k < p.Reads; k++ {
+				pre, _ := s.Headers()
 				tip := s.Services.Headers.GetTip()
 				if tip == nil {
 					setFail(fmt.Errorf("reader: GetTip returned nil"))
 					return
 				}
-				// still this goroutine's turn: the snapshot is the store "at that moment"
+				// still this goroutine's turn: the snapshot is the store "at that moment" - unless a submitter that was
+				// waiting for the Add lock woke up in between, which shows as a difference between the two snapshots
 				rows, err := s.Headers()
 				if err != nil {
 					setFail(fmt.Errorf("infra: %w", err))
 					return
+				}
+				if tableState(pre) != tableState(rows) {
+					stats.Count("reader_checks_skipped_store_changed_concurrently", 1)
+					continue
 				}
 				st := ""
 				for _, row := range rows {
